@@ -170,22 +170,19 @@ def manual(ctx, cfg):
         ok = len(sets) == 1 and strip_bb(R.op(sets[0][1]["args"][1])) == ("arg", 2)
         n += 1
         ctx.ob("manual-key-passthrough", short(fn.path), ok, "the caller's key is handed to Cipher::set unchanged" if ok else "rekey_manually does not pass its key parameter to Cipher::set", where(fn), cfg)
-    for ty in ("cipherstate::CipherStates", "cipherstate::StatelessCipherStates"):
-        for op in ("rekey_initiator_manually", "rekey_responder_manually"):
-            fn = F.one_fn("%s::%s" % (ty, op))
-            R = ctx.guards(cfg, fn).R
-            cs = [(b, t) for b, t in fn.calls() if (t["callee"].get("def") or "").endswith("CipherState::rekey_manually")]
-            ok = len(cs) == 1 and strip_bb(R.op(cs[0][1]["args"][1])) == ("arg", 2)
-            n += 1
-            ctx.ob("manual-key-passthrough", short(fn.path), ok, "key parameter passed through" if ok else "key parameter not passed through", where(fn), cfg)
+    # end to end, through however many forwarding layers there are: the key parameter of
+    # rekey_{initiator,responder}_manually reaches exactly one Cipher::set, on cipherstates.{0,1}.cipher
     for ty in ("transportstate::TransportState", "stateless_transportstate::StatelessTransportState"):
-        for op in ("rekey_initiator_manually", "rekey_responder_manually"):
+        for op, idx in (("rekey_initiator_manually", "0"), ("rekey_responder_manually", "1")):
             fn = F.one_fn("%s::%s" % (ty, op))
-            R = ctx.guards(cfg, fn).R
-            cs = [(b, t) for b, t in fn.calls() if (t["callee"].get("def") or "").endswith("CipherStates::" + op)]
-            ok = len(cs) == 1 and strip_bb(R.op(cs[0][1]["args"][1])) == ("arg", 2)
+            terms, other = follow_key(ctx, cfg, fn, 2, ())
+            want = [("cipherstates", idx, "cipher")]
+            ok = terms == want and not other
             n += 1
-            ctx.ob("manual-key-passthrough", short(fn.path), ok, "key parameter passed through" if ok else "key parameter not passed through to CipherStates::%s" % op, where(fn), cfg)
+            ctx.ob("manual-key-passthrough", short(fn.path), ok,
+                   "the key parameter reaches Cipher::set on self.cipherstates.%s.cipher unchanged, and nothing else" % idx if ok
+                   else "the key parameter reaches Cipher::set on %s (expected self.cipherstates.%s.cipher)%s" % ([".".join(t) for t in terms] or "nothing", idx, ("; it is also passed to %s" % other[0]) if other else ""),
+                   where(fn), cfg)
         # rekey_manually(initiator, responder)
         fn = F.one_fn("%s::rekey_manually" % ty)
         G = ctx.guards(cfg, fn)
@@ -206,4 +203,39 @@ def manual(ctx, cfg):
             n += 1
             ctx.ob("manual-key-passthrough", "%s::rekey_manually:%s" % (ty.split("::")[-1], which), ok,
                    "%s is called with the key of the corresponding Some(..) argument" % which if ok else "%s is not called under Some(arg) with that key" % which, where(fn), cfg)
-    ctx.floor("manual-key-passthrough", n, 14, cfg)
+    ctx.floor("manual-key-passthrough", n, 10, cfg)
+
+
+
+def follow_key(ctx, cfg, fn, param, base, depth=0):
+    """where does the by-reference parameter `param` of fn go? Returns ([field chain (relative to the root self) of the
+    receivers of Cipher::set calls that get it], [other callees it is handed to])."""
+    from ..flow import fields_only
+    F = ctx.facts[cfg]
+    E = ctx.eff(cfg)
+    R = ctx.guards(cfg, fn).R
+    terms, other = [], []
+    if depth > 5:
+        return terms, ["(too deep)"]
+    for bi, t in fn.calls():
+        for j, a in enumerate(t["args"]):
+            if strip_bb(R.op(a)) != ("arg", param):
+                continue
+            d = t["callee"].get("def") or ""
+            recv = E._arg_paths(E.pts[fn.path], t["args"][0]) if t["args"] else set()
+            chains = [tuple(ch) for (ai, ch) in recv if ai == 0]
+            if d == F.crate + "::types::Cipher::set" and j == 1:
+                for ch in chains:
+                    terms.append(tuple(base) + ch)
+                if not chains:
+                    other.append("Cipher::set on an unknown receiver")
+                continue
+            tg, _ = E.targets(t)
+            tg = [x for x in tg if F.fn(x) is not None]
+            if len(tg) == 1 and len(chains) == 1 and j >= 1:
+                t2, o2 = follow_key(ctx, cfg, F.fn(tg[0]), j + 1, tuple(base) + chains[0], depth + 1)
+                terms += t2
+                other += o2
+            else:
+                other.append(d.split("::")[-1])
+    return terms, other
